@@ -18,10 +18,12 @@
 // inserts the corresponding internal labels (LWaitStarted/LWaitDone/LRunSeeStop).
 //
 // Director labels:  a<k> = LSec1 k   b<k> = LSec2 k   r = LRunStart   o = LRunExitOther
-//                   d = LDone.   Callers enter in index order (symmetry reduction).
+//
+//	d = LDone.   Callers enter in index order (symmetry reduction).
 //
 // Line format:  c07 <K> <M> <tag> init=<obs> <label>=<obs> ... end=<0|1>
-//               obs = <callers|->/<cycles|->/<0|1>
+//
+//	obs = <callers|->/<cycles|->/<0|1>
 package main
 
 import (
@@ -419,9 +421,6 @@ var leaked int
 // drain lets every goroutine of the execution run to completion (nothing is recorded).
 func (e *exec) drain() {
 	e.draining.Store(true)
-	for r := e.started; r < e.M; r++ {
-		_ = r
-	}
 	for _, ch := range e.other {
 		select {
 		case <-ch:
